@@ -78,8 +78,14 @@ func (b *Batch) Add(files map[string]string) (*Pkg, error) {
 		return nil, err
 	}
 	for n, c := range files {
-		c = strings.ReplaceAll(c, "package PKGNAME", "package "+p.Name)
-		if err := os.WriteFile(filepath.Join(p.Dir, n), []byte(c), 0o644); err != nil {
+		// PKGNAME stands for the package's name, in contents and in file names (a name such as
+		// "../helper/PKGNAME/h.go" places a second package beside this one in the scratch module)
+		c = strings.ReplaceAll(c, "PKGNAME", p.Name)
+		path := filepath.Join(p.Dir, strings.ReplaceAll(n, "PKGNAME", p.Name))
+		if err := os.MkdirAll(filepath.Dir(path), 0o755); err != nil {
+			return nil, err
+		}
+		if err := os.WriteFile(path, []byte(c), 0o644); err != nil {
 			return nil, err
 		}
 	}
